@@ -230,6 +230,35 @@ Section Oracle.
         intros a c b E. apply (Hq (v :: a) c b). cbn. now rewrite E.
   Qed.
 
+  Fixpoint adj_ok (p : str) : bool :=
+    match p with
+    | c :: (d :: _) as r => (negb (N.eqb d QUOTE) || N.eqb c BACKSLASH) && adj_ok r
+    | _ => true
+    end.
+  Definition re_pat_okb (p : str) : bool :=
+    match p with [] => false | _ => negb (N.eqb (last p 0%N) BACKSLASH) && adj_ok p end.
+
+  Lemma adj_ok_cons x y r : adj_ok (x :: y :: r) = (negb (N.eqb y QUOTE) || N.eqb x BACKSLASH) && adj_ok (y :: r).
+  Proof. reflexivity. Qed.
+
+  Lemma adj_ok_sound p : adj_ok p = true -> forall a c b, p = a ++ c :: QUOTE :: b -> c = BACKSLASH.
+  Proof.
+    induction p as [|x p IH]; intros H a c b E; [destruct a; discriminate|].
+    destruct a as [|y a].
+    - cbn [app] in E. inversion E; subst. rewrite adj_ok_cons in H. apply andb_prop in H as [H _].
+      change (N.eqb QUOTE QUOTE) with true in H. cbn [negb orb] in H. now apply N.eqb_eq.
+    - cbn [app] in E. inversion E; subst. apply (IH ltac:(
+        destruct a as [|z a]; cbn [app] in H |- *; rewrite adj_ok_cons in H; apply andb_prop in H as [_ H]; exact H) a c b eq_refl).
+  Qed.
+
+  Lemma re_pat_okb_sound p : re_pat_okb p = true -> re_pat_ok p.
+  Proof.
+    unfold re_pat_okb, re_pat_ok. destruct p as [|x p]; [discriminate|]. intros H.
+    apply andb_prop in H as [Hl Ha]. split; [discriminate|]. split.
+    - intros E. rewrite E, N.eqb_refl in Hl. discriminate.
+    - now apply adj_ok_sound.
+  Qed.
+
   Theorem re_rule vn obj field s p msg_part :
     re_pat_ok p -> nomem QUOTE (s2b "re=") = true ->
     vn = s2b "re=" ++ QUOTE :: p ++ QUOTE :: msg_part ->
